@@ -41,9 +41,9 @@ def random_lex(rng):
     maybe("unitref", ["isignal", "syssignal"], 0.5)
     maybe("constr", ["phys", "omit"], 0.4)
     maybe("defaults", ["omit"])
-    maybe("num.scale", ["expE", "expe", "plus", "tz"], 0.5)
-    maybe("num.limit", ["expE", "expe", "plus", "tz"], 0.5)
-    maybe("num.tt", ["expE", "plus", "tz", "hex"], 0.35)
+    maybe("num.scale", ["expE", "expe", "plus", "tz", "nz"], 0.5)
+    maybe("num.limit", ["expE", "expe", "plus", "tz", "nz"], 0.5)
+    maybe("num.tt", ["expE", "plus", "tz", "hex", "nz"], 0.35)
     maybe("bool1", [True])
     maybe("lang", ["FOR-ALL", "DE"])
     maybe("order.packages", ["rev", "shuf"])
